@@ -129,7 +129,7 @@ impl Prop for C11 {
         for s in &seqs {
             cs.push(Case { events: s.clone(), user_id: uid, share_id: sid, block: "sequences", lenient: false, caps: 0, write_cap: 0, reactivated: 0 });
             for pos in 0..=s.len() {
-                for k in 0..9u8 {
+                for k in 0..10u8 {
                     let mut e = s.clone();
                     e.insert(pos, Ev::Server(k));
                     cs.push(Case { events: e, user_id: uid, share_id: sid, block: "sequences-with-server-traffic", lenient: false, caps: 0, write_cap: 0, reactivated: 0 });
@@ -145,7 +145,7 @@ impl Prop for C11 {
         // E: the lenient entry point, the server's capability list and a short-writing transport do not change anything
         let probe = vec![Ev::Ptr { x: 10, y: 20, button: 1, down: true }, Ev::Key { code: 0x1E, down: true }, Ev::Bitmap, Ev::BitmapLenient, Ev::Key { code: 0xE048, down: false }, Ev::Ptr { x: 10, y: 20, button: 0, down: false }, Ev::Ptr { x: 10, y: 20, button: 0, down: false }];
         for lenient in [false, true] {
-            for caps in 0..5u8 {
+            for caps in 0..6u8 {
                 for write_cap in [0usize, 1, 2, 7, 20, 47, 48] {
                     cs.push(Case { events: probe.clone(), user_id: uid, share_id: sid, block: "entry-point-x-capabilities-x-transport", lenient, caps, write_cap, reactivated: 0 });
                 }
@@ -187,7 +187,7 @@ impl Prop for C11 {
             let mut e = vec![];
             for i in 0..n {
                 if i % 97 == 96 {
-                    e.push(Ev::Server((i / 97 % 9) as u8));
+                    e.push(Ev::Server((i / 97 % 10) as u8));
                 }
                 e.push(match i % 4 {
                     0 => Ev::Ptr { x: i as u16, y: (i / 3) as u16, button: 0, down: false },
@@ -218,7 +218,7 @@ impl Prop for C11 {
         json!({"idx": idx, "block": c.block, "user_id": c.user_id, "share_id": c.share_id, "n_events": c.events.len(), "events": c.events.iter().take(8).collect::<Vec<_>>()})
     }
     fn rule(&self) -> String {
-        "cases = event sequences submitted through RdpClient::write on a really activated client (raw stack), decoded by the reference peer. [all-x/all-y/all-scancodes] every value 0..65535 of x, y and scancode (batches of 64 events, order checked); [buttons] 4 buttons x 2 press states x 5x5 boundary coordinates; [sequences] every sequence of <=3 (<=5 in thorough) events over a 9-letter alphabet incl. an unsendable kind, alone and with one server PDU (fast-path bitmap, set-error-info, unknown data PDU, a demand-active or a confirm-active arriving in the active state, an indication on the user channel or on another static channel, data PDUs naming share id 0 / another share id) interleaved at every position; [refused-write] one write refused by the transport (WouldBlock / TimedOut / Other / Interrupted, before its first byte) at every position of every sequence of <=2 events; [write-refused-inside-the-frame] the transport takes 1..40 bytes of the frame of the last event and then refuses once (the same four kinds; after Interrupted the standard library calls again): Ok only with exactly one whole PDU on the wire, Err only with that prefix; [long-session] 300 and 70 000 events on one client with a server PDU every 97 events; [identifiers] server-assigned user ids x share ids; [entry-point-x-capabilities-x-transport] a probe sequence (incl. the unsendable kind through write and try_write, a repeated pointer move) through write / try_write x 5 server capability lists (Windows, minimal, input capability without the scancode flag, no input capability, unknown sets) x a transport accepting 1..48 bytes per write; every sequence of <=2 events through try_write, and with the no-scancode-flag list on a 3-byte transport; [after-reactivation] every sequence of <=2 events after a deactivate-all and a second activation with another / the same share id (3 base share ids), also with server finalization PDUs that name the previous share or share 0: the PDUs name the share of the last demand-active; and after a re-activation during which a write and a try_write were attempted after every read (refused / ignored, nothing sent then or later). Non-trivial: >= 2 events or non-default identifiers.".into()
+        "cases = event sequences submitted through RdpClient::write on a really activated client (raw stack), decoded by the reference peer. [all-x/all-y/all-scancodes] every value 0..65535 of x, y and scancode (batches of 64 events, order checked); [buttons] 4 buttons x 2 press states x 5x5 boundary coordinates; [sequences] every sequence of <=3 (<=5 in thorough) events over a 9-letter alphabet incl. an unsendable kind, alone and with one server PDU (fast-path bitmap, set-error-info, unknown data PDU, a demand-active or a confirm-active arriving in the active state, an indication on the user channel or on another static channel, a deactivate-all travelling on a channel that was never joined, data PDUs naming share id 0 / another share id) interleaved at every position; [refused-write] one write refused by the transport (WouldBlock / TimedOut / Other / Interrupted, before its first byte) at every position of every sequence of <=2 events; [write-refused-inside-the-frame] the transport takes 1..40 bytes of the frame of the last event and then refuses once (the same four kinds; after Interrupted the standard library calls again): Ok only with exactly one whole PDU on the wire, Err only with that prefix; [long-session] 300 and 70 000 events on one client with a server PDU every 97 events; [identifiers] server-assigned user ids x share ids; [entry-point-x-capabilities-x-transport] a probe sequence (incl. the unsendable kind through write and try_write, a repeated pointer move) through write / try_write x 5 server capability lists (Windows, minimal, input capability without the scancode flag, no input capability, unknown sets) x a transport accepting 1..48 bytes per write; every sequence of <=2 events through try_write, and with the no-scancode-flag list on a 3-byte transport; [after-reactivation] every sequence of <=2 events after a deactivate-all and a second activation with another / the same share id (3 base share ids), also with server finalization PDUs that name the previous share or share 0: the PDUs name the share of the last demand-active; and after a re-activation during which a write and a try_write were attempted after every read (refused / ignored, nothing sent then or later). Non-trivial: >= 2 events or non-default identifiers.".into()
     }
     fn assumptions(&self) -> Vec<String> {
         vec![
@@ -228,7 +228,7 @@ impl Prop for C11 {
     }
     fn run_case(&mut self, idx: u64) -> Outcome {
         let c = crate::alloc::exempt(|| self.cases[idx as usize].clone());
-        let caps = [crate::peer::CapsKind::WindowsCapture, crate::peer::CapsKind::Minimal, crate::peer::CapsKind::InputWithoutScancodes, crate::peer::CapsKind::NoInputCapability, crate::peer::CapsKind::WithUnknown][c.caps as usize % 5].clone();
+        let caps = [crate::peer::CapsKind::WindowsCapture, crate::peer::CapsKind::Minimal, crate::peer::CapsKind::InputWithoutScancodes, crate::peer::CapsKind::NoInputCapability, crate::peer::CapsKind::WithUnknown, crate::peer::CapsKind::NoCapabilities][c.caps as usize % 6].clone();
         let p = ServerParams { user_id: c.user_id, share_id: c.share_id, caps, reactivations: if (1..=3).contains(&c.reactivated) || c.reactivated == 5 { 1 } else { 0 }, reuse_share_id: c.reactivated == 2, finalization_share_id: match c.reactivated { 3 => Some(1), 4 => Some(0), _ => None }, ..Default::default() };
         let mut conn = match raw_active(&ClientCfg::default(), p) {
             Ok(c) => c,
@@ -267,8 +267,10 @@ impl Prop for C11 {
                 let before = conn.sh.borrow().from_client.len();
                 let r1 = cl.write(RdpEvent::Pointer(PointerEvent { x: 900 + n as u16, y: 77, button: button(1), down: true }));
                 let r2 = cl.try_write(RdpEvent::Key(KeyboardEvent { code: 0x50 + n as u16, down: true }));
-                if r1.is_ok() || r2.is_err() {
-                    return Outcome::fail("mismatch", "input-during-re-activation-not-refused-as-documented", format!("after read #{} of the re-activation (state {}): write -> ok={}, try_write -> ok={}", n, cl.verif_global().verif_state_id(), r1.is_ok(), r2.is_ok()));
+                // (whether the lenient write reports the refusal or swallows it is not this property's matter)
+                let _ = r2;
+                if r1.is_ok() {
+                    return Outcome::fail("mismatch", "input-accepted-during-re-activation", format!("after read #{} of the re-activation (state {}): write returned Ok", n, cl.verif_global().verif_state_id()));
                 }
                 if conn.sh.borrow().from_client.len() != before {
                     return Outcome::fail("mismatch", "input-sent-during-re-activation", format!("after read #{} of the re-activation {} bytes were written for refused / ignored input events", n, conn.sh.borrow().from_client.len() - before));
@@ -356,6 +358,8 @@ impl Prop for C11 {
                         // indications on other channels than the global one: the user channel, another static channel
                         5 => framing::tpkt(&framing::x224_dt(&mcs::send_data_indication(1002, c.user_id, &share::set_error_info(c.share_id, 1002, 0)))),
                         6 => framing::tpkt(&framing::x224_dt(&mcs::send_data_indication(1002, 1004, &[1, 2, 3, 4]))),
+                        // a deactivate-all that travels on a channel this client never joined: it is not for the global channel
+                        9 => framing::tpkt(&framing::x224_dt(&mcs::send_data_indication(1002, 1005, &share::deactivate_all(c.share_id, 1002)))),
                         // data PDUs whose share id field is not the id of the share (0 / another value): the share id the
                         // client uses comes from the demand-active alone
                         7 => sdi(&share::set_error_info(0, 1002, 0)),
